@@ -65,8 +65,24 @@ def check_C01(K, prop, tier, seed, t0):
                   "distinct_nontrivial = configurations that produced at least one token")
 
 
+def trace_only(profile, n_quick, n_thorough, rule):
+    def chk(K, prop, tier, seed, t0):
+        n = n_quick if tier == "quick" else n_thorough
+        reps = [K.run_trace_leg(prop, "T-" + profile, profile, n, seed, shards=12)]
+        return finish(K, prop, tier, seed, t0, "model_checking", reps, None, ASSUME_COMMON, rule)
+    return chk
+
+
 CHECKS = {
     "C01": check_C01,
+    "C04": trace_only("c04", 300, 5000, "random real-syntax modes with lookaheads, histories with set_offset"),
+    "C05": trace_only("c05", 300, 5000, "random real-syntax modes with two or more patterns and lookaheads"),
+    "C06": trace_only("c06", 300, 5000, "random mode graphs"),
+    "C07": trace_only("c07", 300, 5000, "hostile: nullable patterns"),
+    "C09": trace_only("c09", 300, 5000, "positions"),
+    "C10": trace_only("c10", 300, 5000, "offsets"),
+    "C11": trace_only("c11", 300, 5000, "peek"),
+    "C12": trace_only("c12", 300, 5000, "isolation"),
 }
 
 
